@@ -82,6 +82,27 @@ def render (a : Asg) (ids : List (Nat × String)) (ts : List Nat) : String :=
 def asgOf (es : List (Nat × Nat × List Int)) : Asg :=
   fun t id => (es.filter (fun e => e.1 == id && e.2.1 == t)).flatMap (·.2.2)
 
+def perms : List Nat → List (List Nat)
+  | [] => [[]]
+  | x :: xs => (perms xs).flatMap fun p => (List.range (p.length + 1)).map fun i => p.take i ++ x :: p.drop i
+
+/-- RackAffinity for one topic: look for a pair of map iteration orders under which the model reproduces the
+implementation's output for this topic; fall back to the first-appearance order -/
+def rackTopic (ms : List Member) (ps : List Part) (a : Asg) (ids : List Nat) (t : Nat) : Option (List (Nat × List Int)) :=
+  let sub := appendByTopic t ms
+  if sub.isEmpty then some [] else
+  let tp := partsOfTopic t ps
+  let zones := (tp.map (·.zone)).eraseDups
+  let orders := perms zones
+  let agrees (es : List (Nat × List Int)) : Bool := ids.all fun id => collect id es == a t id
+  let hit := orders.findSome? fun s1 => orders.findSome? fun s2 =>
+    match rackAssignTopic sub tp s1 s2 with
+    | some es => if agrees es then some es else none
+    | none => none
+  match hit with
+  | some es => some es
+  | none => rackAssignTopic sub tp zones zones
+
 def answer (model : String) (holds : Bool) : String :=
   s!"model={model} holds={if holds then 1 else 0}"
 
@@ -105,6 +126,15 @@ def step (line : String) : String :=
         match op with
         | "range" => answer (render (rangeAssign ms ps) idsH ts) (ok && (!wf || rangeHoldsOn ms ps a ts ids))
         | "rr" => answer (render (rrAssign ms ps) idsH ts) (ok && (!wf || rrHoldsOn ms ps a ts ids))
+        | "rack" =>
+          let zs := sortDedup (ms.map (·.zone) ++ ps.map (·.zone))
+          let per := ts.map fun t => (t, rackTopic ms ps a ids t)
+          let model : String :=
+            if per.any (·.2.isNone) then "panic"
+            else render (fun t id => match per.find? (·.1 == t) with
+                                     | some (_, some es) => collect id es
+                                     | _ => []) idsH ts
+          answer model (ok && (!wf || rackHoldsOn ms ps a ts ids zs))
         | _ => "bad-op"
       | _, _, _ => "bad-args"
     | _ => "bad-op"
